@@ -2,6 +2,7 @@ import Norad.Base.Proto
 import Driver.C11
 import Driver.C06
 import Driver.C01
+import Driver.C04
 /-!
 # Line-protocol driver
 
@@ -16,6 +17,7 @@ def dispatch (inp obs : List String) : Verdict :=
   | some "C11" => Driver.C11.run inp obs
   | some "C06" => Driver.C06.run inp obs
   | some "C01" => Driver.C01.run inp obs
+  | some "C04" => Driver.C04.run inp obs
   | _ => { agree := false, model := "unknown-model" }
 
 partial def loop (h : IO.FS.Stream) (out : IO.FS.Stream) : IO Unit := do
